@@ -535,6 +535,8 @@ def unit_access(R, m, _):
         add("uncons?", "uncons?(%s)" % q, V_(None))
         add("unsnoc?", "unsnoc?(%s)" % q, V_(None))
     add("only", "only(%s)" % q, V_(elem_c(m, 0)) if n == 1 else THROW)
+    fresh = {"list": "(%s ++ [])", "vec": "(%s ++ V())", "bytes": "(%s ++ B[])", "str": "(%s $ \"\")"}.get(m.kind)
+    fresh = fresh % q if fresh else None
     for ix in int_ixs(n) + NONINT + [NULL]:
         k = icls(ix, n)
         e = exp_slice(m, OMIT, ix)
@@ -545,6 +547,15 @@ def unit_access(R, m, _):
         add("drop", "drop(%s, %s)" % (q, ix.text), e, k)
         add("!?", "%s !? %s" % (q, ix.text), exp_safe(m, ix), k)
         add("!%", "%s !%% %s" % (q, ix.text), exp_cyclic(m, ix), k)
+        if fresh:
+            # the same access on a freshly computed, uniquely owned temporary instead of a value held by a variable
+            # (literals are shared constants): move-instead-of-copy fast paths must address the same positions
+            add("take", "%s take %s" % (fresh, ix.text), exp_slice(m, OMIT, ix), k + "|temp" if k else "temp")
+            add("drop", "%s drop %s" % (fresh, ix.text), exp_slice(m, ix, OMIT), k + "|temp" if k else "temp")
+    if fresh:
+        add("tail", "tail%s" % fresh, V_(whole_c(m, m.items[1:])), "temp")
+        add("butlast", "butlast%s" % fresh, V_(whole_c(m, m.items[:-1])), "temp")
+        add("last", "last%s" % fresh, at(-1), "temp")
     R.add(cases)
 
 
